@@ -196,5 +196,7 @@ structure VisitPost (c : DrawCfg) (d : Option Style) (s : Scr) (t : ATerm) (x y 
   of a two-column glyph — is locked -/
   covers : ∃ cs, t'.covered = cs ++ t.covered ∧ (c.guardLocked = true → ∀ p ∈ cs, s.cells.locked p.1 p.2 = false)
   vis_same : t'.visible = t.visible ∧ t'.shape = t.shape
+  /-- the draw loop marks the hidden right half of a two-column step dirty -/
+  nb : wd > 1 → x + 1 < s.w → (s'.cells.cells (x + 1) y).lastMain = 0
 
 end Tcell
